@@ -31,7 +31,9 @@ def run(spec, acc, ctx, mode):
         ck = json.dumps(cfg, sort_keys=True, default=str)
         prev = objects.get(ck) if rng.random() < 0.5 else None
         same_key = prev is not None and rng.random() < 0.6
-        if same_key:
+        if prev is not None:
+            # keywords are shared with the earlier database whether or not the key is kept: what the object remembers
+            # per keyword (under the old key) must not answer for the new key
             for old_w in rng.sample(sorted(prev["db"]), min(2, len(prev["db"]))):
                 if old_w not in db and len(old_w) <= cp["kw_limit"] and len(db) > 1:
                     victim = rng.choice(sorted(db))
